@@ -73,6 +73,104 @@ def variant(base, v):
     return out
 
 
+def isa_variant(isa, base):
+    """A content variant of an ISA semantics file that changes the report of the C17 kernels: the first `add` entry (x86: add imm,gpr;
+    AArch64: add x,x,imm) no longer declares its register SOURCE (`addq $32, %rax` / `add x10, x10, #64` stop carrying a loop dependency)."""
+    m = re.search(rb"(?m)^( *)- name: add\n", base)
+    assert m, "no `add` entry in the ISA file"
+    start = m.end()
+    nxt = re.search(rb"(?m)^" + m.group(1) + rb"- name:", base[start:])
+    end = start + (nxt.start() if nxt else len(base) - start)
+    entry = base[start:end]
+    hits = [x.start() for x in re.finditer(rb"source: true", entry)]
+    k = 1 if isa == "x86" else 0
+    assert len(hits) > k
+    entry = entry[:hits[k]] + b"source: false" + entry[hits[k] + len(b"source: true"):]
+    return base[:start] + entry + base[end:]
+
+
+def isa_edit_history(scratch, arch, kernel, mode):
+    """Edits of the ISA semantics file (a model file like any other).  Returns (log, bad): in ONE process analyse / edit ISA / analyse / restore /
+    analyse, then across processes cli / edit ISA / cli / restore / cli; every report must equal the cold report of a fresh world that holds the
+    same file contents."""
+    isa = ISA_OF[arch]
+    log, bad = [], []
+    refs = {}
+    for v in (0, 1):
+        root = os.path.join(scratch, "isaref-%s-%s-%d-%d" % (arch, mode, v, int(time.time() * 1000) % 100000))
+        w = World(root, arch, kernel, "comp", [0])
+        if v:
+            open(w.isayml, "wb").write(isa_variant(isa, w.isa_bytes))
+        n, p = w.start_cli()
+        rc, out, err = w.finish_cli(p)
+        refs[v] = strip_report(out) if rc == 0 else "FAILED: " + err[-300:]
+        w.close()
+    if refs[0] == refs[1] or refs[1].startswith("FAILED"):
+        return log, [("harness", "the ISA edit does not change the cold report (or the cold run failed): %s" % refs[1][:200])]
+    root = os.path.join(scratch, "isaedit-%s-%s-%d" % (arch, mode, int(time.time() * 1000) % 100000))
+    w = World(root, arch, kernel, mode, [0])
+    try:
+        cdir = os.path.join(w.root, "isa-contents")
+        os.makedirs(cdir)
+        srcs = {}
+        for v, b in ((0, w.isa_bytes), (1, isa_variant(isa, w.isa_bytes))):
+            srcs[v] = os.path.join(cdir, "%d.yml" % v)
+            open(srcs[v], "wb").write(b)
+        was = list(w.immutable)
+
+        def unlock():
+            for d in was:
+                chattr("-i", d)
+
+        def lock():
+            for d in was:
+                chattr("+i", d)
+        # (a) one process
+        steps, expect = [], []
+        for v in (0, 1, 0, 1):
+            steps.append(["write", w.isayml, srcs[v]])
+            steps.append(["analyse", arch, w.kernel])
+            expect += [None, v]
+        unlock()      # the process itself edits the file: the data directory must be writable for the edit, read-only mode is covered in (b)
+        sfile = os.path.join(w.root, "isa-steps.json")
+        json.dump(steps, open(sfile, "w"))
+        rc, out = vlib.sh([vlib.PY, DRIVER, "inproc", sfile], env=w.env(), cwd=w.root, timeout=600)
+        lock()
+        lines = [json.loads(l) for l in out.splitlines() if l.startswith("{")]
+        for i, v in enumerate(expect):
+            if v is None:
+                continue
+            r = lines[i] if i < len(lines) else {"error": "no output: " + out[-200:]}
+            if "error" in r:
+                bad.append(("cache-run-raises", "in-process analysis %d after an ISA-file edit failed with %s" % (i // 2 + 1, r["error"])))
+                break
+            rep = strip_report(r["report"])
+            log.append("in-process analysis %d with ISA content #%d -> %s" % (i // 2 + 1, v, "ok" if rep == refs[v] else "the report of content #%d" % (1 - v) if rep == refs[1 - v] else "another report"))
+            if rep != refs[v]:
+                bad.append(("isa-edit-not-picked-up", "one process: analysis %d ran after the ISA semantics file had been given content #%d but printed %s"
+                            % (i // 2 + 1, v, "the report of content #%d (stale in-process model)" % (1 - v) if rep == refs[1 - v] else "a report that matches neither content")))
+                break
+        # (b) separate processes, on-disk caches of both contents accumulate
+        for j, v in enumerate((0, 1, 1, 0, 1)):
+            unlock()
+            open(w.isayml, "wb").write(open(srcs[v], "rb").read())
+            lock()
+            n, p = w.start_cli()
+            rc, out, err = w.finish_cli(p)
+            rep = strip_report(out)
+            log.append("cli run %d with ISA content #%d -> %s" % (j + 1, v, "ok" if rc == 0 and rep == refs[v] else "rc=%d" % rc))
+            if rc != 0:
+                bad.append(("cache-run-raises", "run %d after an ISA-file edit failed: %s" % (j + 1, err.strip().splitlines()[-1][:160] if err.strip() else rc)))
+                break
+            if rep != refs[v]:
+                bad.append(("isa-edit-not-picked-up", "separate processes: run %d (ISA semantics file content #%d) printed %s"
+                            % (j + 1, v, "the report of content #%d (stale cache entry served)" % (1 - v) if rep == refs[1 - v] else "a report that matches neither content")))
+                break
+    finally:
+        w.close()
+    return log, bad
+
+
 def fp_data(data):
     """Fingerprint of a loaded model without its internal_version stamp."""
     if not isinstance(data, dict):
